@@ -57,14 +57,14 @@ class Lock:
 
 # ----------------------------------------------------------------------------- translate
 def retarget():
-    """snapshot runs only: point the three cargo manifests at MATREEX_REPO"""
-    if REPO == "/repo" or ROOT == "/verif":
-        return
+    """the three cargo manifests must point at the implementation under verification: /repo for every registered command;
+    MATREEX_REPO only for background runs in a scratch copy of /verif (the manifests are rewritten in place, so this
+    also repairs a manifest that a scratch run left pointing elsewhere)"""
     for d in ("harness", "probes", "fmtcfg"):
         f = os.path.join(ROOT, d, "Cargo.toml")
         if os.path.exists(f):
             t = open(f).read()
-            t2 = t.replace('path = "/repo"', 'path = "%s"' % REPO)
+            t2 = re.sub(r'matreex = \{ path = "[^"]*"', 'matreex = { path = "%s"' % REPO, t)
             if t2 != t:
                 open(f, "w").write(t2)
 
